@@ -416,9 +416,11 @@ func (w *world) run(b int, beh []step) (outs []stepOut) {
 			case "ImportObj":
 				var kp keys.KeyPair
 				var rawb [64]byte
-				if _, isEd := w.raw[l.K].(pc.Ed25519PrivateKey); !isEd {
-					fmt.Fprintf(os.Stderr, "cryptodrv: ImportObj of key %d, which is not an ed25519 key\n", l.K)
-					os.Exit(3)
+				if r, have := w.raw[l.K]; !have || len(r.RawBytes()) != len(rawb) {
+					// only after an earlier divergence (an export that should have produced the key failed): the
+					// call cannot be made; python has stopped comparing this behaviour at the divergence
+					err = fmt.Errorf("driver: no raw ed25519 key %d in the client's hands", l.K)
+					break
 				}
 				copy(rawb[:], w.raw[l.K].RawBytes())
 				kp, err = w.kb.ImportPrivateKeyObject(rawb, pass(l.P))
@@ -436,6 +438,10 @@ func (w *world) run(b int, beh []step) (outs []stepOut) {
 			case "ArmorRaw":
 				// the client encrypts a raw key it holds, as another keybase / wallet would export it
 				var armor string
+				if _, have := w.raw[l.K]; !have {
+					err = fmt.Errorf("driver: no raw key %d in the client's hands", l.K) // only after an earlier divergence
+					break
+				}
 				armor, err = mintkey.EncryptArmorPrivKey(w.raw[l.K], pass(l.P), "made elsewhere")
 				if err == nil {
 					o.Key = l.K
